@@ -2,12 +2,10 @@
 // Use of this source code is governed by a BSD-style
 // license that can be found in the LICENSE file.
 
+//go:build !amd64 || purego
+
 package field
 
 func feMul(v, x, y *Element) { feMulGeneric(v, x, y) }
 
 func feSquare(v, x *Element) { feSquareGeneric(v, x) }
-
-func (v *Element) carryPropagate() *Element {
-	return v.carryPropagateGeneric()
-}
